@@ -510,10 +510,13 @@ func (e *Entity) Commit(repo repository.ClockedRepo) error {
 			e.staging = e.staging[1:]
 		}
 
-		e.editTime, err = repo.Increment(fmt.Sprintf(editClockPattern, e.Namespace))
+		editTime, err := repo.Increment(fmt.Sprintf(editClockPattern, e.Namespace))
 		if err != nil {
+			// keep the operations staged: the entity stays usable and the commit can be retried
+			e.staging = append(toCommit, e.staging...)
 			return err
 		}
+		e.editTime = editTime
 
 		opp := &operationPack{
 			Author:     author,
@@ -522,10 +525,13 @@ func (e *Entity) Commit(repo repository.ClockedRepo) error {
 		}
 
 		if e.lastCommit == "" {
-			e.createTime, err = repo.Increment(fmt.Sprintf(creationClockPattern, e.Namespace))
+			createTime, err := repo.Increment(fmt.Sprintf(creationClockPattern, e.Namespace))
 			if err != nil {
+				// keep the operations staged, as above
+				e.staging = append(toCommit, e.staging...)
 				return err
 			}
+			e.createTime = createTime
 			opp.CreateTime = e.createTime
 		}
 
